@@ -166,3 +166,13 @@ func Tokens(src string, d [4]string) []Tok {
 func HasOpen(src string) bool {
 	return strings.Contains(src, "{{") || strings.Contains(src, "{%")
 }
+
+// BlockWord reports whether name is one of the standard block, clause or end tags.
+func BlockWord(name string) bool {
+	switch name {
+	case "if", "unless", "case", "for", "tablerow", "capture", "comment", "raw", "else", "elsif", "when",
+		"endif", "endunless", "endcase", "endfor", "endtablerow", "endcapture", "endcomment", "endraw":
+		return true
+	}
+	return false
+}
